@@ -29,33 +29,31 @@ local macro "cfg_cases" c:term : tactic => `(tactic|
 /-! ## 1. drop-in, feed-forward classes: for EVERY interpretation of the primitives and EVERY
        quantizer / activation functions -/
 
-/-- classes whose `call` quantizes each weight tensor as stored -/
+/-- classes whose `call` quantizes each weight tensor as stored (since /repo 5ab82ec also
+    QSeparableConv1D) -/
 def Plain (cls : Cls) : Prop :=
-  cls = .dense ∨ cls = .activation ∨ cls = .conv1d ∨ cls = .conv2d ∨ cls = .sepConv2d ∨
-  cls = .dwConv2d ∨ cls = .scaleShift
+  cls = .dense ∨ cls = .activation ∨ cls = .conv1d ∨ cls = .conv2d ∨ cls = .sepConv1d ∨
+  cls = .sepConv2d ∨ cls = .dwConv2d ∨ cls = .scaleShift
 
-/-- QConv1D reaches causal padding through `K.conv1d`, whose `temporal_padding` pads axis 1: that is
-    the time axis only under `channels_last` (see `C11_conv1d_causal_channelsFirst_counterexample`). -/
-def CausalOK (cls : Cls) (c : LCfg) : Prop :=
-  cls = .conv1d → c.conv.padding = .causal → c.conv.df = .channelsLast
-
-/-- QDense, QActivation, QConv1D (both data formats; causal only under channels_last — `_partial`
-    in that respect), QConv2D (no mask), QSeparableConv2D, QDepthwiseConv2D, QScaleShift:
+/-- QDense, QActivation, QConv1D (both data formats, every padding — causal under channels_first
+    included since /repo 035b3d2: the former hypothesis `CausalOK` is gone), QConv2D (no mask),
+    QSeparableConv1D (every quantizer function — the former hypothesis `CommutesExpand` is gone since
+    /repo 5ab82ec), QSeparableConv2D, QDepthwiseConv2D, QScaleShift:
     output = activation (stock layer on weights `q_i(w_i)`). -/
 theorem C11_dropin (I : Interp T) (E : Env T) (cls : Cls) (c : LCfg) (hc : Plain cls)
-    (hm : c.hasMask = false) (ha : cls = .activation → c.hasAct = true) (hcf : CausalOK cls c) :
+    (hm : c.hasMask = false) (ha : cls = .activation → c.hasAct = true) :
     eval I E (qlayer cls c) = actOf c E (eval I (preEnv c E) (kerasLayer cls c)) := by
-  rcases hc with h | h | h | h | h | h | h <;> subst h
+  rcases hc with h | h | h | h | h | h | h | h <;> subst h
   · simp only [qlayer, kerasLayer, qDense, kDense, qw, withAct, actOf, preEnv]
     cfg_cases c <;> simp [eval, *]
   · simp [qlayer, kerasLayer, qActivation, actOf, preEnv, eval, ha rfl]
-  · simp only [qlayer, kerasLayer, qConv1d, kConv1d, kConv1dOp, qw, withAct, actOf, preEnv]
-    by_cases hp : c.conv.padding = .causal
-    · have hdf : c.conv.df = .channelsLast := hcf rfl hp
+  · simp only [qlayer, kerasLayer, qConv1d, kConv1d, qw, withAct, actOf, preEnv]
+    by_cases hp : c.conv.padding = .causal <;> by_cases hdf : c.conv.df = .channelsLast <;>
       cfg_cases c <;> simp [eval, spatialStart, *]
-    · cfg_cases c <;> simp [eval, *]
   · simp only [qlayer, kerasLayer, qConv2d, kConv2d, qw, withAct, actOf, preEnv, hm]
     cfg_cases c <;> simp [eval, *]
+  · simp only [qlayer, kerasLayer, qSepConv1d, kSepConv1d, qw, withAct, actOf, preEnv]
+    by_cases hp : c.conv.padding = .causal <;> cfg_cases c <;> simp [eval, *]
   · simp only [qlayer, kerasLayer, qSepConv2d, kSepConv2d, qw, withAct, actOf, preEnv]
     cfg_cases c <;> simp [eval, *]
   · simp only [qlayer, kerasLayer, qDwConv2d, kDwConv2d, qw, withAct, actOf, preEnv]
@@ -72,32 +70,41 @@ theorem C11_dropin_conv2d_masked (I : Interp T) (E : Env T) (c : LCfg) (hm : c.h
   simp only [qlayer, kerasLayer, qConv2d, kConv2d, qw, withAct, actOf, preEnv, hm]
   cfg_cases c <;> simp [eval, *]
 
+/-- QSeparableConv1D is drop-in for EVERY quantizer function (instance of `C11_dropin`; until /repo
+    5ab82ec this needed the hypothesis that both kernel quantizers commute with `expand_dims(·, 0)`). -/
+theorem C11_dropin_sepConv1d (I : Interp T) (E : Env T) (c : LCfg) (hm : c.hasMask = false) :
+    eval I E (qlayer .sepConv1d c) = actOf c E (eval I (preEnv c E) (kerasLayer .sepConv1d c)) :=
+  C11_dropin I E .sepConv1d c (by simp [Plain]) hm (by intro h; cases h)
+
 /-- a quantizer commutes with `expand_dims(·, 0)` (every element-wise quantizer does, see
-    `C11_elementwise_commutes_expandDims`; per-channel auto-scaled ones are tied numerically) -/
+    `C11_elementwise_commutes_expandDims`; per-channel auto-scaled ones do not) -/
 def CommutesExpand (I : Interp T) (q : T → T) : Prop :=
   ∀ t, q (I.op1 (.expandDims 0) t) = I.op1 (.expandDims 0) (q t)
 
-/-- QSeparableConv1D quantizes the kernels AFTER expanding them to 4-D: drop-in holds for the
-    quantizers that commute with that reshape. -/
-theorem C11_dropin_sepConv1d (I : Interp T) (E : Env T) (c : LCfg)
+/-- the repair 5ab82ec (quantize the stored kernels, expand afterwards) PRESERVES the layer's value
+    for every quantizer that commutes with the reshape: old `call` = new `call`. -/
+theorem C11_sepConv1d_repair_preserves_commuting (I : Interp T) (E : Env T) (c : LCfg)
     (h0 : c.hasQ 0 = true → CommutesExpand I (E.quant 0))
     (h1 : c.hasQ 1 = true → CommutesExpand I (E.quant 1)) :
-    eval I E (qlayer .sepConv1d c) = actOf c E (eval I (preEnv c E) (kerasLayer .sepConv1d c)) := by
+    eval I E (qSepConv1dExpandFirst c) = eval I E (qlayer .sepConv1d c) := by
   simp only [CommutesExpand] at h0 h1
-  simp only [qlayer, kerasLayer, qSepConv1d, kSepConv1d, qw, withAct, actOf, preEnv]
+  simp only [qlayer, qSepConv1d, qSepConv1dExpandFirst, qw, withAct]
   by_cases hp : c.conv.padding = .causal <;> cfg_cases c <;> simp_all [eval]
 
-/-- without the commutation hypothesis the statement is false: an interpretation in which the
-    quantizer distinguishes the expanded kernel -/
-theorem C11_sepConv1d_needs_commutation :
+/-- REGRESSION WITNESS of finding C11-sepconv1d-expanded-kernel-auto-scale (repaired in /repo
+    5ab82ec): in the interpretation where the quantizer distinguishes the expanded kernel (the old
+    counterexample), the OLD `call` (expand first) is not the stock layer on pre-quantized weights,
+    the layer as it is now is. -/
+theorem C11_sepConv1d_expand_first_fixed_witness :
     ∃ (I : Interp Int) (E : Env Int) (c : LCfg),
-      eval I E (qlayer .sepConv1d c) ≠ actOf c E (eval I (preEnv c E) (kerasLayer .sepConv1d c)) := by
+      eval I E (qSepConv1dExpandFirst c) ≠ actOf c E (eval I (preEnv c E) (kerasLayer .sepConv1d c)) ∧
+      eval I E (qlayer .sepConv1d c) = actOf c E (eval I (preEnv c E) (kerasLayer .sepConv1d c)) := by
   refine ⟨{ const := fun _ => 0, op1 := fun o t => match o with | .expandDims 0 => t + 1 | _ => t,
             op2 := fun _ a _ => a, op3 := fun _ _ b _ => b },
           { x := 0, state := fun _ => 0, weight := fun _ => 0, mask := 0,
             quant := fun _ t => 2 * t, actv := fun _ t => t },
-          { hasQ := fun s => s == 0, useBias := false }, ?_⟩
-  simp [qlayer, kerasLayer, qSepConv1d, kSepConv1d, qw, withAct, actOf, preEnv, eval]
+          { hasQ := fun s => s == 0, useBias := false }, ?_, ?_⟩ <;>
+  simp [qlayer, kerasLayer, qSepConv1d, qSepConv1dExpandFirst, kSepConv1d, qw, withAct, actOf, preEnv, eval]
 
 /-- QAveragePooling2D with an average quantizer: the stock layer on `x * area`, times the
     quantized reciprocal (cast to floatx), then the activation. -/
@@ -153,19 +160,16 @@ theorem C11_quantFree_eval (I : Interp T) (E : Env T) (q' : Nat → T → T) (t 
 /-! ## 2. no quantizers configured: the two transcriptions are the SAME term -/
 
 theorem C11_no_quantizer (cls : Cls) (c : LCfg) (hcls : cls ≠ .activation)
-    (hq : ∀ s, c.hasQ s = false) (ha : c.hasAct = false) (hm : c.hasMask = false)
-    (hcf : CausalOK cls c) :
+    (hq : ∀ s, c.hasQ s = false) (ha : c.hasAct = false) (hm : c.hasMask = false) :
     qlayer cls c = kerasLayer cls c := by
-  have hcf' : cls = .conv1d → c.conv.padding = .causal → spatialStart c.conv = 1 := by
-    intro h1 h2; simp [spatialStart, hcf h1 h2]
   cases cls <;>
-  simp only [qlayer, kerasLayer, qDense, kDense, qConv1d, kConv1d, kConv1dOp, qConv2d, kConv2d,
+  simp only [qlayer, kerasLayer, qDense, kDense, qConv1d, kConv1d, qConv2d, kConv2d,
     qSepConv1d, kSepConv1d, qSepConv2d, kSepConv2d, qDwConv2d, kDwConv2d, qAvgPool2d, kAvgPool2d,
     qGlobalAvgPool2d, kGlobalAvgPool2d, qScaleShift, kScaleShift, qw, withAct, hq, ha, hm] <;>
   first
     | exact absurd rfl hcls
     | (cases c.useBias <;> (try by_cases hp : c.conv.padding = .causal) <;>
-        (try have := hcf' rfl) <;> simp_all)
+        (try by_cases hdf : c.conv.df = .channelsLast) <;> simp_all [spatialStart])
 
 /-! ## 3. recurrent layers -/
 
@@ -357,17 +361,17 @@ theorem C11_elementwise_commutes_expandDims (q : QSpec) (f : ℚ → ℚ) (h : q
     CommutesExpand concrete q.apply :=
   fun t => elementwise_commutes_expandDims q f h 0 t
 
-/-- … so the hypothesis of `C11_dropin_sepConv1d` is satisfiable and QSeparableConv1D is drop-in for
-    them: concrete instance, any geometry, weights and inputs (non-vacuity of the hypothesis). -/
-theorem C11_dropin_sepConv1d_elementwise (c : LCfg) (x : Tensor) (ws : List Tensor) (qs as : List QSpec)
+/-- … so for them the repair 5ab82ec changed nothing: concretely, any geometry, weights and inputs,
+    the old `call` (expand, then quantize) and the present one give the same tensor (non-vacuity of the
+    hypothesis of `C11_sepConv1d_repair_preserves_commuting`). -/
+theorem C11_sepConv1d_repair_preserves_elementwise (c : LCfg) (x : Tensor) (ws : List Tensor) (qs as : List QSpec)
     (h0 : ∃ f, (qs.getD 0 .ident).scalarFn = some f) (h1 : ∃ f, (qs.getD 1 .ident).scalarFn = some f) :
     let E := concreteEnv x [] ws Tensor.bad qs as
-    eval concrete E (qlayer .sepConv1d c) =
-      actOf c E (eval concrete (preEnv c E) (kerasLayer .sepConv1d c)) := by
+    eval concrete E (qSepConv1dExpandFirst c) = eval concrete E (qlayer .sepConv1d c) := by
   intro E
   obtain ⟨f0, hf0⟩ := h0
   obtain ⟨f1, hf1⟩ := h1
-  exact C11_dropin_sepConv1d concrete E c
+  exact C11_sepConv1d_repair_preserves_commuting concrete E c
     (fun _ => C11_elementwise_commutes_expandDims _ f0 hf0)
     (fun _ => C11_elementwise_commutes_expandDims _ f1 hf1)
 
@@ -377,7 +381,7 @@ theorem C11_dropin_sepConv1d_elementwise (c : LCfg) (x : Tensor) (ws : List Tens
     function of (configuration, weights, mask, quantizer functions, input of the current call) only -/
 theorem C11_qlayer_buildFree (cls : Cls) (c : LCfg) : buildFree (qlayer cls c) = true := by
   cases cls <;>
-  simp only [qlayer, qDense, qActivation, qConv1d, kConv1dOp, qConv2d, qSepConv1d, qSepConv2d, qDwConv2d,
+  simp only [qlayer, qDense, qActivation, qConv1d, qConv2d, qSepConv1d, qSepConv2d, qDwConv2d,
     qAvgPool2d, qGlobalAvgPool2d, qScaleShift, qw, withAct, recip, recipIn] <;>
   cases c.hasAct <;> cases c.useBias <;> cases c.hasQ 0 <;> cases c.hasQ 1 <;> cases c.hasQ 2 <;>
   cases c.hasMask <;> (try by_cases hp : c.conv.padding = .causal) <;> simp [buildFree, *]
@@ -420,14 +424,13 @@ theorem C11_object_history (I : Interp T) (E : Env T) (cls : Cls) (c : LCfg) (xs
 
 /-- hence the drop-in equation holds at EVERY position of every history (plain classes) … -/
 theorem C11_object_history_dropin (I : Interp T) (E : Env T) (cls : Cls) (c : LCfg) (hc : Plain cls)
-    (hm : c.hasMask = false) (ha : cls = .activation → c.hasAct = true) (hcf : CausalOK cls c)
-    (xs : List T) :
+    (hm : c.hasMask = false) (ha : cls = .activation → c.hasAct = true) (xs : List T) :
     objectCalls I E (qlayer cls c) xs =
       xs.map fun x => actOf c E (eval I (preEnv c { E with x := x }) (kerasLayer cls c)) := by
   rw [(C11_object_history I E cls c xs).2]
   apply List.map_congr_left
   intro x _
-  exact C11_dropin I { E with x := x } cls c hc hm ha hcf
+  exact C11_dropin I { E with x := x } cls c hc hm ha
 
 /-- … and for QGlobalAveragePooling2D every call multiplies the pooling sum of ITS input with the
     quantized reciprocal area of ITS input -/
@@ -504,28 +507,42 @@ theorem C11_cell_bias_rank2_format_free (x bias : Tensor) (b n : ℕ) (hs : x.sh
     op2C (.biasAdd .channelsFirst) x bias = op2C (.biasAdd .channelsLast) x bias :=
   biasAddC_rank2 x bias b n hs
 
-/-- COUNTEREXAMPLE (recorded finding C11-conv1d-causal-channels-first): QConv1D(padding='causal',
-    data_format='channels_first') pads axis 1 — the channel axis — inside `K.conv1d`, the stock layer
-    pads the time axis (axis 2): an interpretation that tells the two pads apart. -/
-theorem C11_conv1d_causal_channelsFirst_counterexample :
+/-- the repair 035b3d2 (pad the time axis in `call`, `valid` to `K.conv1d`) PRESERVES the term wherever
+    the old code was right: not causal, or causal under channels_last — old `call` = new `call`. -/
+theorem C11_conv1d_repair_preserves_channelsLast (c : LCfg)
+    (h : c.conv.padding = .causal → c.conv.df = .channelsLast) :
+    qConv1dBackendCausal c = qlayer .conv1d c := by
+  simp only [qlayer, qConv1d, qConv1dBackendCausal, kConv1dOp]
+  by_cases hp : c.conv.padding = .causal
+  · simp [hp, h hp]
+  · simp [hp]
+
+/-- REGRESSION WITNESS of finding C11-conv1d-causal-channels-first (repaired in /repo 035b3d2):
+    QConv1D(padding='causal', data_format='channels_first').  In the interpretation that tells a pad
+    of axis 1 (the channel axis — what `K.conv1d` does with `causal`) from a pad of axis 2 (the time
+    axis — what the stock layer does), the OLD `call` is not the stock layer on pre-quantized weights,
+    the layer as it is now is. -/
+theorem C11_conv1d_causal_channelsFirst_fixed_witness :
     ∃ (I : Interp Int) (E : Env Int) (c : LCfg),
       c.conv.padding = .causal ∧ c.conv.df = .channelsFirst ∧
-      eval I E (qlayer .conv1d c) ≠ actOf c E (eval I (preEnv c E) (kerasLayer .conv1d c)) := by
+      eval I E (qConv1dBackendCausal c) ≠ actOf c E (eval I (preEnv c E) (kerasLayer .conv1d c)) ∧
+      eval I E (qlayer .conv1d c) = actOf c E (eval I (preEnv c E) (kerasLayer .conv1d c)) := by
   refine ⟨{ const := fun _ => 0, op1 := fun o t => match o with | .padLeft ax _ => ax | _ => t,
             op2 := fun _ a _ => a, op3 := fun _ a _ _ => a },
           { x := 0, state := fun _ => 0, weight := fun _ => 0, mask := 0,
             quant := fun _ t => t, actv := fun _ t => t },
           { hasQ := fun _ => false, useBias := false, kernel := 2,
             conv := { strides := [1], padding := .causal, dilation := [1], df := .channelsFirst } },
-          rfl, rfl, ?_⟩
-  simp [qlayer, kerasLayer, qConv1d, kConv1d, kConv1dOp, qw, withAct, actOf, preEnv, eval, spatialStart]
+          rfl, rfl, ?_, ?_⟩ <;>
+  simp [qlayer, kerasLayer, qConv1d, qConv1dBackendCausal, kConv1d, kConv1dOp, qw, withAct, actOf, preEnv, eval,
+    spatialStart]
 
 /-! ### non-vacuity: the hypotheses used above are satisfiable -/
 
 example : Plain .conv2d := by simp [Plain]
-example : CausalOK .conv1d ({ hasQ := fun _ => false, conv := ⟨[2], .causal, [1], .channelsLast⟩ } : LCfg) :=
-  fun _ _ => rfl
-example : CausalOK .conv2d { hasQ := fun _ => false } := by intro h; simp at h
+example : Plain .sepConv1d := by simp [Plain]
+example : CommutesExpand (T := Int) ⟨fun _ => 0, fun _ t => t, fun _ a _ => a, fun _ a _ _ => a⟩
+    (fun t => 2 * t) := fun _ => rfl
 example : (1 : ℕ) * 2 + 2 ≤ 5 ∧ 0 < 2 * 2 := by omega
 example : (QSpec.bits { bits := 4, integer := 0, symmetric := true, keepNeg := true, alpha := none }).scalarFn
     = some (qbits .even { bits := 4, integer := 0, symmetric := true, keepNeg := true, alpha := none }) := rfl
